@@ -1,7 +1,9 @@
 (* C11 — proofs about the model: re-exports the parts; short proofs of statements of Properties.v. *)
 From Coq Require Import List NArith Bool Lia.
 From V.C11 Require Import Model.
-From V.C11 Require Export PBase PAlt PInv PIso PLedger PTimer PSend PLazy.
+From V.C11 Require Before.
+From V.C11 Require HSModel HSProofs.
+From V.C11 Require Export PBase PAlt PHInv PInv PIso PLedger PTimer PSend PLazy PGate PLazyAlt.
 Import ListNotations.
 Open Scope N_scope.
 
@@ -14,12 +16,51 @@ Qed.
 
 
 (* ---- statements of Properties.v whose proofs are a few lines ---- *)
-Lemma C11_alternation_refuted_pf :
-  exists (c : cfg) (ops : list op),
-    grammar (fun _ => false) (events (fst (run c init ops))) = None.
+(* ---- finding class 1, before and after its repair ---- *)
+(* the history of the witness w3_slow_close_overlap in the model of the code before the repair (Before.v):
+   the user closes a stream whose Connection task is slow to close, the remote re-opens, the old task
+   finishes: Opened Opened Closed *)
+Definition w_slow_close_before : list Before.op :=
+  [Before.Established 0; Before.CmdOpen 0; Before.SubIn 0; Before.HsIn 0 true; Before.SubOut 0; Before.HsIn 0 true;
+   Before.HsOut 0 true; Before.Gate 0; Before.CmdClose 0; Before.SubIn 0; Before.HsIn 0 true; Before.Validate 0 true;
+   Before.HsIn 0 true; Before.SubOut 0; Before.HsOut 0 true; Before.Release 0].
+Definition cfg_w_before : Before.cfg := Before.mkCfg true true (fun _ => false).
+
+Lemma C11_alternation_before_fix_refuted_pf :
+  Before.events (fst (Before.run cfg_w_before Before.init w_slow_close_before)) =
+    [Before.UOpened 0 Before.DOut; Before.UValidate 0; Before.UOpened 0 Before.DIn; Before.UClosed 0; Before.UClosed 0] /\
+  Before.grammar (fun _ => false) (Before.events (fst (Before.run cfg_w_before Before.init w_slow_close_before))) = None /\
+  events (fst (run cfg_w init w_slow_close)) = [UOpened 0 DOut; UClosed 0; UValidate 0; UOpened 0 DIn].
 Proof.
- exists cfg_w, w_slow_close. vm_compute. reflexivity.
+ vm_compute. repeat split; reflexivity.
 Qed.
+
+Lemma reachable_HInv c s : reachable c s -> HInv s.
+Proof.
+  induction 1 as [|s o s' ev cl R HI S]; [apply HInv_init|]. destruct (step_HInv _ _ _ _ _ _ HI S) as [_ H']. exact H'.
+Qed.
+
+Lemma C11_closed_on_disconnect_pf :
+  forall (c : cfg) (s : st) (p : peer) (k : N) (s' : st) (ev : list uev) (calls : list call),
+    reachable c s -> conn s p = true -> ps s p = Some (Open k) ->
+    step c s (ConnClosed p) = Some (s', ev, calls) -> In (UClosed p) ev.
+Proof. intros c s p k s' ev calls R. eapply step_conn_closed; eauto. apply (reachable_HInv c s R). Qed.
+
+Lemma C11_closed_on_user_close_pf :
+  forall (c : cfg) (s : st) (p : peer) (k : N) (s' : st) (ev : list uev) (calls : list call),
+    reachable c s -> ps s p = Some (Open k) ->
+    step c s (CmdClose p) = Some (s', ev, calls) -> In (UClosed p) ev.
+Proof. intros c s p k s' ev calls R. eapply step_cmd_close; eauto. apply (reachable_HInv c s R). Qed.
+
+Lemma C11_user_view_is_protocol_view_pf :
+  forall (c : cfg) (s : st), reachable c s ->
+    (forall p, hopen s p = is_open (ps s p)) /\ (forall p k, ps s p = Some (Open k) -> hsink s p = Some k).
+Proof. intros c s R. destruct (reachable_HInv c s R) as [A B _]. auto. Qed.
+
+Lemma C11_delivered_close_kills_nothing_pf :
+  forall (c : cfg) (s : st) (o : op) (s1 : st) (ev : list uev) (cl : list call) (s2 : st) (dr : list peer) (ks : list N),
+    reachable c s -> main_handler c s o = Some (s1, ev, cl) -> drain s1 ev = (s2, dr, ks) -> ks = [].
+Proof. intros c s o s1 ev cl s2 dr ks R. eapply step_kills_nothing. apply (reachable_HInv c s R). Qed.
 
 Lemma C11_no_stuck_pf :
   forall (c : cfg) (ops : list op), snd (run c init ops) = true.
@@ -72,15 +113,39 @@ Proof.
  intros. eapply answers_step; eauto.
 Qed.
 
-Lemma C11_open_answered_refuted_pf :
-  exists (c : cfg) (ops : list op) (s : st) (owed : peer -> bool),
-    ledger c init (fun _ => false) ops = Some (s, owed) /\ owed 0 = true /\ obligation s 0 = false.
+Lemma reachable_B3 c s : reachable c s -> B3 s.
 Proof.
+  intros R. assert (X : SInv s /\ B3 s).
+  { induction R as [|s o s' ev cl R [I B] S].
+    - split; [apply SInv_init|apply B3_init].
+    - split; [|eapply step_B3; eauto].
+      destruct (step_SInv c s o I) as (s2 & e2 & c2 & E & I2). rewrite E in S. injection S as <- _ _. exact I2. }
+  apply X.
+Qed.
 
-  exists cfg_w0, w_failed_sid2.
-  destruct (ledger cfg_w0 init (fun _ => false) w_failed_sid2) as [[s owed]|] eqn:E.
-  - exists s, owed. split; auto. pose proof w_failed_check as W. rewrite E in W. inversion W. auto.
-  - pose proof w_failed_check as W. rewrite E in W. discriminate.
+Lemma C11_no_dead_substream_id_pf :
+  forall (c : cfg) (s : st), reachable c s ->
+    (forall p x, (ps s p = Some (OutInit x) \/ exists d i, ps s p = Some (Validating d (OInit x) i)) -> In (x, p) (spend s)) /\
+    (forall x q, In (x, q) (pend s) -> In (x, q) (spend s)).
+Proof.
+  intros c s R. destruct (reachable_B3 c s R) as [B P]. split; auto.
+  intros p x [H|(d & i & H)]; apply B; rewrite H; reflexivity.
+Qed.
+
+Lemma C11_open_answered_before_fix_refuted_pf :
+  exists (c : cfg) (pre : list op) (s s' : st),
+    exec c init pre = Some s /\ ledger_env c init pre = true /\ hopen s 0 = false /\
+    ps s 0 = Some (Closed (Some 0)) /\ pend_find 0 (pend s) = None /\ spend s = [] /\
+    on_open_old c s 0 = Some (s', [], []) /\ in_progress (ps s' 0) = true /\ obligation s' 0 = false /\
+    exists s2, on_open c s 0 = Some (s2, [], [COpen 0 1]) /\ obligation s2 0 = true.
+Proof.
+  exists cfg_w0, w_failed_pre.
+  pose proof failed_id_before_fix as W.
+  destruct (exec cfg_w0 init w_failed_pre) as [s|] eqn:E; [|discriminate W].
+  destruct (on_open_old cfg_w0 s 0) as [[[s' ev] cl]|] eqn:E1; [|discriminate W].
+  destruct (on_open cfg_w0 s 0) as [[[s2 ev2] cl2]|] eqn:E2; [|discriminate W].
+  injection W as W1 W2 W3 W4 W5 W6 W7 W8 W9 W10 W11 W12 W13 W14. subst.
+  exists s, s'. repeat split; auto. exists s2. split; auto.
 Qed.
 
 Lemma C11_open_answered_class3_refuted_pf :
@@ -110,6 +175,15 @@ Proof.
   exists s1, s2, s3, ev, cl. subst. repeat split; auto.
 Qed.
 
+Lemma reachable_GSInv c s : reachable c s -> GSInv s.
+Proof.
+  induction 1 as [|s o s' ev cl R G S]; [apply GS_init|eapply step_GS; eauto].
+Qed.
+
+Lemma C11_lazy_queue_lifecycle_only_pf : forall (c : cfg) (cap : nat) (gs : list lop) x,
+  In x (fst (lrun c cap linit gs)) -> Forall not_notif (lq (fst (fst x))).
+Proof. intros c cap gs. apply lrun_nn. constructor. Qed.
+
 Lemma C11_lazy_no_stuck_pf : forall (c : cfg) (cap : nat) (gs : list lop), snd (lrun c cap linit gs) = true.
 Proof. intros. apply lrun_nostuck. apply SInv_init. Qed.
 
@@ -129,3 +203,10 @@ Proof. intros. apply lrun_cap; auto. Qed.
 Definition w_parked : list lop :=
   [LOp (Established 0); LOp (Established 1); LOp (SubIn 1); LOp (HsIn 1 true);
    LOp (CmdOpen 0); LOp (SubOut 0); LOp (HsOut 0 true); LOp (Timer 0); LOp (SubIn 0); LPoll; LPoll].
+
+(* a notification of stream period 0 is still queued in the handle when the user, polling late, is handed
+   Closed and then the Opened of period 1 *)
+Definition w_stale_notif : list lop :=
+  [LOp (Established 0); LOp (CmdOpen 0); LOp (SubOut 0); LOp (HsOut 0 true); LOp (SubIn 0); LOp (HsIn 0 true);
+   LOp (HsIn 0 true); LPoll; LOp (Notify 0); LOp (TaskDie 0 false); LOp (SubIn 0); LOp (HsIn 0 true); LPoll; LPoll;
+   LOp (Validate 0 true); LOp (SubOut 0); LOp (HsOut 0 true); LOp (HsIn 0 true); LPoll; LPoll].
